@@ -47,7 +47,7 @@ def load_known() -> List[Dict[str, Any]]:
         with open(KNOWN) as f:
             for line in f:
                 line = line.strip()
-                if line and not line.startswith("#"):
+                if line and not line.startswith("#") and not line.startswith("fixed:"):
                     out.append(json.loads(line))
     return out
 
